@@ -91,6 +91,10 @@ def run(repo, R):
     E.__class__ = E2
     E.lenient = True
     E.track_restrict = True
+    p_xyz = sp.symbols("p_x p_y p_z", real=True)
+    n_xyz = sp.symbols("n_x n_y n_z", real=True)
+    E.component_symbols_multi = {p: p_xyz, n: n_xyz}
+    dist_explicit = sp.sqrt(sum((a_ - b_) ** 2 for a_, b_ in zip(p_xyz, n_xyz)))
     # run only the statements after the validation part: every statement that is not an If
     for st in fn.body:
         if isinstance(st, ast.If):
@@ -115,6 +119,11 @@ def run(repo, R):
                     "sum_A Z_A/|r - R_A| (only a zero charge may be skipped)", where=where_ret,
                     expected="every nucleus with non-zero charge contributes", found=f"selection {c}")
     ret = ret.subs(dist_sym, d)
+    # the same distance written out per Cartesian direction
+    if ret.has(*p_xyz) or ret.has(*n_xyz):
+        w_ = sp.Wild("w_")
+        ret = ret.subs(dist_explicit, d).subs(dist_explicit ** 2, d ** 2)
+        ret = ret.replace(lambda z: isinstance(z, sp.Pow) and sp.simplify(z.base - dist_explicit ** 2) == 0, lambda z: d ** (2 * z.exp))
     # split the result into the part that depends on the nuclear charges and the rest
     ret = sp.expand(ret) if ret.is_Add else ret
     terms = sp.Add.make_args(ret)
